@@ -19,7 +19,7 @@ ZI = os.path.join(C.BUILD, "tzfile", "zi")          # unpacked corpus (never /tm
 EPOCH = D.datetime(1970, 1, 1)
 TRICKY = ["Europe/Dublin", "Pacific/Norfolk", "Africa/Algiers", "Africa/Casablanca",
           "America/St_Johns", "Asia/Kathmandu", "Australia/Lord_Howe", "Pacific/Apia",
-          "Antarctica/Troll", "Africa/Monrovia"]
+          "Antarctica/Troll", "Africa/Monrovia", "America/Adak"]
 E_VALUE, E_STRUCT, E_INDEX, E_ATTR, E_OTHER, E_FUEL = 1, 2, 3, 4, 5, 6
 JOBS = int(os.environ.get("VERIF_JOBS", "8"))
 
